@@ -74,6 +74,7 @@ ObsInit(C) ==
     idle      |-> [e \in Ents |-> 0],
     fp        |-> 0,                        \* first-pass pointer of the sender
     pend      |-> {},                       \* requested pieces not yet retransmitted
+    pendMeta  |-> FALSE,                    \* Metadata re-requested (the 0-0 request) and not yet retransmitted
     nEof      |-> 0,
     nMeta     |-> 0,
     sprog     |-> 0,                        \* highest offset transmitted in the first pass
@@ -182,7 +183,11 @@ Step(o, ev, C) ==
       nakIn == Delivered(ev, "S", "NAK") /\ ev.res = "ok" /\ isAck
       newPieces == IF nakIn THEN UNION {Pieces(ev.pin.reqs[i][1], ev.pin.reqs[i][2], C) : i \in 1 .. Len(ev.pin.reqs)}
                    ELSE {}
-      pend2 == (o.pend \ {<<p.off, p.off + p.len>> : p \in sData}) \cup newPieces
+      \* a sender that is no longer transferring (cancelled, finished, gone) owes no retransmission
+      sOwes == ev.salive /\ ev.S.alive /\ ev.S.st \in {"Meta", "Data", "Eof"}
+      pend2 == IF sOwes THEN (o.pend \ {<<p.off, p.off + p.len>> : p \in sData}) \cup newPieces ELSE {}
+      pendMeta2 == sOwes /\ (IF nakIn /\ \E i \in 1 .. Len(ev.pin.reqs) : ev.pin.reqs[i] = <<0, 0>> THEN TRUE
+                             ELSE o.pendMeta /\ ~(\E p \in sOut : p.k = "Metadata"))
       eofOut == {p \in sOut : p.k = "EOF"}
       eofNoErr == {p \in eofOut : p.cond = "NoError"}
       metaOut == {p \in sOut : p.k = "Metadata"}
@@ -285,6 +290,11 @@ Step(o, ev, C) ==
              \cup {"C07:MetadataWrong" : p \in {q \in metaOut : ~q.ok}}
              \cup {"C07:EofWrong" : p \in {q \in eofNoErr : ~q.ok}}
              \cup {"C07:EofBeforeData" : p \in {q \in eofNoErr : C.isfile /\ fp2 # N}}
+             \* sending is urgent (A2): when time starts to pass, every requested piece has been retransmitted
+             \* (a script that lets time pass while the sender still has something to send is outside A2: not judged)
+             \cup (IF ev.a = "Tick" /\ sOwes /\ ~o.susp["S"] /\ ~o.excused["S"] /\ ev.S.txs = "Active" /\ ~ev.S.can
+                      /\ (o.pend # {} \/ o.pendMeta)
+                   THEN {"C07:NakNotAnswered"} ELSE {})
 
       badReq(p, r) == \/ ~(r[1] < r[2] \/ (r = <<0, 0>> /\ o.markerOk))
                       \/ (r # <<0, 0>> /\ ~(p.s <= r[1] /\ r[2] <= p.e))
@@ -378,7 +388,7 @@ Step(o, ev, C) ==
               succ |-> succ2, delivered |-> delivered2,
               destAt |-> IF firstDelivery THEN ev.dest ELSE o.destAt,
               tree |-> ev.tree,
-              idle |-> idle2, fp |-> fp2, pend |-> pend2,
+              idle |-> idle2, fp |-> fp2, pend |-> pend2, pendMeta |-> pendMeta2,
               nEof |-> o.nEof + (IF eofNoErr # {} THEN 1 ELSE 0),
               nMeta |-> o.nMeta + (IF metaOut # {} THEN 1 ELSE 0),
               sprog |-> sprog2, round |-> round2,
